@@ -1090,6 +1090,15 @@ fn codec_enumeration(cx: &mut Ctx) {
         if !looks_resp {
             continue;
         }
+        let names_of = |src: &str| -> Vec<String> {
+            src.lines()
+                .filter_map(|l| {
+                    let t = l.trim_start();
+                    ["pub async fn ", "async fn ", "pub fn ", "fn ", "pub(crate) fn "].iter().find_map(|p| t.strip_prefix(p)).map(|r| r.chars().take_while(|c| c.is_alphanumeric() || *c == '_').collect::<String>())
+                })
+                .collect()
+        };
+        let file_has_accounted = names_of(&src).iter().any(|n| account(&rel, n).is_some());
         for line in src.lines() {
             let t = line.trim_start();
             for pre in ["pub async fn ", "async fn ", "pub fn ", "fn ", "pub(crate) fn "] {
@@ -1105,8 +1114,16 @@ fn codec_enumeration(cx: &mut Ctx) {
                             None => {
                                 // helpers that are no RESP codecs, in files that contain one: listed one by one
                                 let benign = matches!((rel.as_str(), name.as_str()), ("src/bin/server_persistent.rs", "parse_replica_id_from_env") | ("src/production/connection_optimized.rs", "parse_usize_fast"));
+                                // a PRIVATE function of a LIBRARY file whose codec functions are accounted for can be
+                                // reached only through those (they are what the generators drive and the models
+                                // transcribe): a new or renamed private helper is no new entry point.  (In a bin target
+                                // every function is private: there a new codec-like function stays a violation.)
+                                let is_bin = rel.starts_with("src/bin/") || rel == "src/main.rs";
+                                let private_helper = pre == "fn " && !is_bin && file_has_accounted;
                                 if benign {
                                     table.insert(format!("{}::{}", rel, name), json!("not a RESP codec (environment / length-field helper; parse_usize_fast is part of the C04 recognisers)"));
+                                } else if private_helper {
+                                    table.insert(format!("{}::{}", rel, name), json!("private helper of a library file whose codec functions are accounted for: reachable only through them"));
                                 } else {
                                     table.insert(format!("{}::{}", rel, name), json!("UNACCOUNTED"));
                                     cx.out.violation(&format!("C15:coverage:resp-codec-not-accounted:{}::{}", rel, name), "a function of the source tree looks like a RESP encoder / decoder and is neither in the model's table nor listed with the reason why not (harness/src/c15.rs codec_enumeration)", json!({"file": rel, "fn": name}));
@@ -1123,6 +1140,130 @@ fn codec_enumeration(cx: &mut Ctx) {
         cx.out.violation("C15:coverage:source-scan-failed", "the scan of the source tree found fewer than 20 codec functions", json!({"root": root, "found": found}));
     }
     cx.out.extra.insert("resp_codecs(derived from the source tree at run time)".into(), serde_json::Value::Object(table));
+}
+
+// ---------------------------------------------------------------- source text helpers (shared with C04)
+
+/// index just behind the `}` that closes the block opening at `open` (`src[open] == '{'`); string,
+/// raw-string, byte-string and char literals and comments are skipped
+pub fn match_brace(src: &[u8], open: usize) -> Option<usize> {
+    let mut depth = 0usize;
+    let mut i = open;
+    while i < src.len() {
+        let c = src[i];
+        match c {
+            b'/' if src.get(i + 1) == Some(&b'/') => {
+                while i < src.len() && src[i] != b'\n' {
+                    i += 1;
+                }
+                continue;
+            }
+            b'/' if src.get(i + 1) == Some(&b'*') => {
+                let mut d = 1;
+                i += 2;
+                while i + 1 < src.len() && d > 0 {
+                    if src[i] == b'/' && src[i + 1] == b'*' {
+                        d += 1;
+                        i += 2;
+                    } else if src[i] == b'*' && src[i + 1] == b'/' {
+                        d -= 1;
+                        i += 2;
+                    } else {
+                        i += 1;
+                    }
+                }
+                continue;
+            }
+            b'r' if matches!(src.get(i + 1), Some(&b'"') | Some(&b'#'))
+                && (i == 0 || !(src[i - 1].is_ascii_alphanumeric() || src[i - 1] == b'_') || src[i - 1] == b'b') =>
+            {
+                // raw string r"…" / r#"…"# (also br"…")
+                let mut j = i + 1;
+                let mut hashes = 0;
+                while src.get(j) == Some(&b'#') {
+                    hashes += 1;
+                    j += 1;
+                }
+                if src.get(j) == Some(&b'"') {
+                    j += 1;
+                    'raw: while j < src.len() {
+                        if src[j] == b'"' {
+                            let mut k = 0;
+                            while k < hashes && src.get(j + 1 + k) == Some(&b'#') {
+                                k += 1;
+                            }
+                            if k == hashes {
+                                j += 1 + hashes;
+                                break 'raw;
+                            }
+                        }
+                        j += 1;
+                    }
+                    i = j;
+                    continue;
+                }
+            }
+            b'"' => {
+                i += 1;
+                while i < src.len() && src[i] != b'"' {
+                    if src[i] == b'\\' {
+                        i += 1;
+                    }
+                    i += 1;
+                }
+            }
+            b'\'' => {
+                // a char literal ('x', '\n', '\'', '\u{1f600}', a multi-byte char) or a lifetime ('a)
+                if src.get(i + 1) == Some(&b'\\') {
+                    i += 3;
+                    while i < src.len() && src[i] != b'\'' {
+                        i += 1;
+                    }
+                } else {
+                    let close = (2..=5).find(|k| src.get(i + k) == Some(&b'\''));
+                    let ident = src.get(i + 1).map(|c| c.is_ascii_alphabetic() || *c == b'_').unwrap_or(false);
+                    match close {
+                        Some(k) if !(ident && k > 2) => i += k,
+                        _ => {}
+                    }
+                }
+            }
+            b'{' => depth += 1,
+            b'}' => {
+                depth -= 1;
+                if depth == 0 {
+                    return Some(i + 1);
+                }
+            }
+            _ => {}
+        }
+        i += 1;
+    }
+    None
+}
+
+/// the text of the function (free or method, any visibility) `name` of `src`, from the `fn` keyword to
+/// its closing brace — found by NAME with brace matching, wherever it stands in the file
+pub fn fn_text<'a>(src: &'a str, name: &str) -> Option<&'a str> {
+    let b = src.as_bytes();
+    let pat = format!("fn {}", name);
+    let mut from = 0;
+    while let Some(off) = src[from..].find(&pat) {
+        let at = from + off;
+        from = at + pat.len();
+        let before_ok = at == 0 || !(b[at - 1].is_ascii_alphanumeric() || b[at - 1] == b'_');
+        let after_ok = matches!(b.get(at + pat.len()).copied(), Some(b'(') | Some(b'<'));
+        // not inside a comment line
+        let line_start = src[..at].rfind('\n').map(|x| x + 1).unwrap_or(0);
+        let in_comment = src[line_start..at].trim_start().starts_with("//");
+        if !(before_ok && after_ok) || in_comment {
+            continue;
+        }
+        let open = at + src[at..].find('{')?;
+        let end = match_brace(b, open)?;
+        return Some(&src[at..end]);
+    }
+    None
 }
 
 // ---------------------------------------------------------------- generators
